@@ -289,6 +289,7 @@ type memListener struct {
 	// optional gates for forced schedules
 	acceptReturnGate *gate // Accept has dequeued a connection, waits before returning it
 	closeGate        *gate // Close waits before taking effect
+	slowClose        chan struct{} // if set: Close releases Accept at once but returns only when this is closed (or after 300 ms)
 	tempAfterClose   bool  // after Close, Accept fails with a temporary error (an accept deadline in the past) instead of net.ErrClosed
 	holdAccepts      bool  // every dequeued connection waits at its own gate (appended to held)
 	held             []*gate
@@ -349,7 +350,17 @@ func (l *memListener) Close() error {
 	l.mu.Lock()
 	l.closes++
 	l.mu.Unlock()
-	l.once.Do(func() { close(l.closed) })
+	first := false
+	l.once.Do(func() { close(l.closed); first = true })
+	l.mu.Lock()
+	sc := l.slowClose
+	l.mu.Unlock()
+	if first && sc != nil {
+		select {
+		case <-sc:
+		case <-time.After(300 * time.Millisecond):
+		}
+	}
 	return nil
 }
 
